@@ -14,20 +14,20 @@ CHECKS = {
  "C03": ("exploration", "Seeded frame sequences (all 256 command bytes, boundary ids, lengths 0..65535 and attempted oversize through the real encoder) and arbitrary byte strings, delivered through a fragmenting simulated pipe into the real read_buf+decode loop; compared with an independent whole-buffer reference codec; consumed-byte accounting after every decode call. The round-trip/length-field clauses are pure functions of the input (seeded generation only).", "7/C03", ""),
  "C04": ("exploration", "Seeded padding schemes from the whole accepted language (sizes up to 2^63-1, reversed ranges, junk, missing lines) x packets of 0..200000 payload bytes written through the real client Session onto a recording pipe; reference parser checks frame alignment at every flush, that removing Waste leaves exactly the submitted frames, that no operation fails/panics/attempts a giant write, and (peer = real server) that the payload is delivered.", "7/C04", ""),
  "C05": ("exploration", "Seeded schemes (sizes <= 65535) x payload sizes x single/concurrent writers; the record lengths of the k-th flush-delimited group on the recorded client transport are checked by a reference acceptor that walks scheme line k; preamble padding0 length from line 0; no padding from packet `stop` on and never from the server.", "7/C05", ""),
- "C06": ("exploration", "Preamble cases partly enumerated by run index (all 256 single-bit flips, a byte deviation per position, related passwords, every truncation offset of one valid preamble ended by EOF/reset/stall) and partly seeded (declared padding lengths incl. 0/65534/65535, random strings), delivered through a fragmenting pipe to the real authenticate_client with a sentinel frame (exact-skip oracle), and in 1 of 8 cases through real rustls to the real Server::listen followed by Settings+SYN+destination with the simulated network watched for dials and plaintext replies.", "7/C06", ""),
- "C07": ("exploration", "Whole system in the simulator (real Client + SOCKS5/HTTP/UDP front-ends + real Server + DNS cache on the virtual clock + rustls): histories of 1-12 requests over IPv4/IPv6/name destinations (name lengths 1..255) and boundary ports, with virtual gaps inside and beyond the 60 s cache lifetime, tiny-size padding schemes and a raw TLS client that spreads the destination over several PSH frames; oracle = the simulated network's connect/datagram log after every request.", "7/C07", ""),
- "C10": ("exploration", "Real Client and front-ends against (a) the real Server with targets that accept after a delay / refuse / black-hole and names that resolve slowly / fail / hang, and (b) a scripted TLS server answering each open before / around / after the 30 s wait, twice, for unknown ids, with an error text, never, or killing the session; 1-6 racing opens; oracle on virtual time, the connect log and every byte the application receives (one reply, success only after the connect, reason text, prompt failure on session death).", "7/C10", ""),
- "C15": ("exploration", "Rounds of datagrams of boundary sizes (1..65507) in both directions through (a) the whole system on a lossless, ordered simulated UDP network (real Client::create_udp_proxy, real sessions over rustls, real Server and handle_udp_over_tcp) and (b) the real handle_udp_over_tcp behind a real server Session fed by a scripted peer that cuts the length-prefixed byte stream into PSH frames at seeded offsets, always inside the first prefix and sometimes one byte per frame; one-for-one, same-size, same-bytes, right-address oracle.", "7/C15", ""),
+ "C06": ("exploration", "Preamble cases partly enumerated by run index (all 256 single-bit flips, a byte deviation per position, related passwords, every truncation offset of one valid preamble ended by EOF/reset/stall) and partly seeded (declared padding lengths incl. 0/65534/65535, random strings), delivered through a fragmenting pipe to the real authenticate_client with a sentinel frame (exact-skip oracle), and in 1 of 8 cases through real rustls to the real Server::listen followed by Settings+SYN+destination — also after a silence of 3 s .. 125 s inside the preamble — with the simulated network watched for dials and plaintext replies.", "7/C06", ""),
+ "C07": ("exploration", "Whole system in the simulator (real Client + SOCKS5/HTTP/UDP front-ends + real Server + DNS cache on the virtual clock + rustls): histories of 1-12 requests over IPv4/IPv6/name destinations (name lengths 1..255) and boundary ports, with virtual gaps inside and beyond the 60 s cache lifetime, tiny-size padding schemes a raw TLS client that spreads the destination over several PSH frames, and a raw TLS peer whose UDP association request names an address or a host name (the server's domain branch, unreachable through create_udp_proxy); oracle = the simulated network's connect/datagram log after every request.", "7/C07", ""),
+ "C10": ("exploration", "Real Client and front-ends against (a) the real Server with targets that accept after a delay / refuse / black-hole and names that resolve slowly / fail / hang, and (b) a scripted TLS server answering each open before / around / after the 30 s wait, twice, for unknown ids, with an error text, never, or killing the session, and (c) a proxy server that itself refuses / closes / is not TLS / rejects the password / dies after the handshake / crashes and restarts (prompt single failure per request, nothing dialled, service resumes after the restart); 1-6 racing opens, also from a raw TLS peer whose destination header is spread over data frames; oracle on virtual time, the connect log and every byte the application receives (one reply, success only after the connect, reason text, prompt failure on session death).", "7/C10", ""),
+ "C15": ("exploration", "Rounds of datagrams of boundary sizes (1..65507) in both directions through (a) the whole system on a lossless, ordered simulated UDP network (real Client::create_udp_proxy, real sessions over rustls, real Server and handle_udp_over_tcp) and (b) the real handle_udp_over_tcp behind a real server Session fed by a scripted peer that cuts the length-prefixed byte stream into PSH frames at seeded offsets, always inside the first prefix and sometimes one byte per frame, with pauses of up to 70 s inside a datagram and with the tunnel ending (FIN / clean end / reset) inside a last datagram; one-for-one, same-size, same-bytes, right-address oracle.", "7/C15", ""),
  "C18": ("exploration", "Histories of 3-14 steps on real certificate/key files in a per-run scratch directory (replace both files in either order with a reload or crash between the two writes, replace one file, truncate at offset k with k enumerated by the run index over both files, garbage, delete, chain, certificates minted to expire -10y..-5s..+10y from now, a change of the certificate file between the two reads inside reload() through a guarded fault point); after every step a fresh real TLS handshake against get_acceptor() and against a real Server::listen built on the reloadable acceptor must present the reference model's active leaf, reported info and counter must match, and a TLS session established earlier keeps echoing.", "7/C18", ""),
- "C20": ("exploration", "Three modes: hostile frames (every command x id class x payload class incl. hostile settings/scheme texts, junk bytes, lying length fields) interleaved with valid traffic into a real client/server Session with a fault-free sibling pair in the same runtime; bit flips / length-field corruption / truncation on the pipes between two real Sessions; random and half-valid byte streams into the SOCKS5 / HTTP listeners and into a UDP-over-TCP stream of the whole system. Panics in /repo code are caught by a process-wide hook, aborts by the worker process model (RLIMIT_AS), spins by a poll budget per virtual instant; behavioural clauses: harmless input leaves valid traffic intact, any input leaves the session usable or cleanly closable, siblings and later connections unaffected.", "7/C20", ""),
+ "C20": ("exploration", "Three modes: hostile frames (every command x id class x payload class incl. hostile settings/scheme texts, junk bytes, lying length fields) interleaved with valid traffic into a real client/server Session with a fault-free sibling pair in the same runtime; bit flips / length-field corruption / truncation on the pipes between two real Sessions; random and half-valid byte streams into the SOCKS5 / HTTP listeners and into a UDP-over-TCP stream of the whole system, plus grammar-aware hostile association requests, destination headers, name fields and datagram lengths sent over a real client session to the real server (the carrying session must afterwards serve a well-formed stream or be closed). Panics in /repo code are caught by a process-wide hook, aborts by the worker process model (RLIMIT_AS), spins by a poll budget per virtual instant; behavioural clauses: harmless input leaves valid traffic intact, any input leaves the session usable or cleanly closable, siblings and later connections unaffected.", "7/C20", ""),
  "C19": ("exploration", "Cases over {default factory touched before or not} x client scheme x 1-3 successive server schemes x 2-4 sessions x optional unparsable push. Session mode: real client Session against a real server Session with a differing/identical scheme on plaintext recording pipes (push iff md5 differs; the client's packets after the push satisfy the C05 acceptor under the pushed scheme). Client mode: real Client against a scripted TLS server that records the md5 every new session announces, pushes, switches schemes and pushes garbage (later sessions announce the pushed scheme, the pushed-to session holds it, garbage changes nothing). The process-wide default is reset before every case through a guarded hook.", "7/C19", ""),
  "C16": ("exploration", "One seeded client byte stream per run (greeting with 0-255 methods, request with any version/command/reserved/address-type byte, IPv4/IPv6/name of length 0-255, boundary ports, optional truncation at any byte or trailing bytes) written to the real SOCKS5 front-end in seeded segments down to single bytes with delays; targets accept/refuse/black-hole; sibling and fresh connections check isolation; oracle = 60-line reference SOCKS5 server + the simulated network's connect log + reply timing.", "7/C16", ""),
- "C17": ("exploration", "One seeded well-formed proxy request per run (CONNECT / absolute-form / origin-form+Host, methods incl. lower-case and extension, names / IPv4 / bracketed IPv6 with and without ports, header sets with seeded order, Host spelling and position, header blocks padded to ~1 KiB / ~2 KiB / the 64 KiB limit, body bytes in the same segments as the header and later, early tunnel bytes for CONNECT) written to the real HTTP front-end with seeded segmentation; oracle = independent reference for authority, status, the rewritten request the origin must receive byte for byte, and relayed bytes both ways.", "7/C17", ""),
+ "C17": ("exploration", "One seeded well-formed proxy request per run (CONNECT / absolute-form incl. empty path with a query / origin-form+Host / asterisk-form, methods incl. lower-case and extension, names / IPv4 / bracketed IPv6 with and without ports, header sets with seeded order, Host spelling and position, header blocks padded to ~1 KiB / ~2 KiB / the 64 KiB limit, body bytes in the same segments as the header and later, early tunnel bytes for CONNECT) written to the real HTTP front-end with seeded segmentation; oracle = independent reference for authority, status, the rewritten request the origin must receive byte for byte, and relayed bytes both ways.", "7/C17", ""),
  "C08": ("exploration", "(a) Receive side, strict: a scripted peer sends interleaved PSH chunks and FIN for 1-4 streams to a real client/server Session whose readers are blocked, slow or absent; every byte then EOF, EOF only for ids with FIN, exactly those ids released from both tables, writes on the finished stream still reach the wire. (b) End to end through the whole system (SOCKS5 / HTTP CONNECT tunnels): the application or the target closes / half-closes with up to 200000 bytes in flight; bytes-before-EOF, reverse direction and siblings are strict; EOF propagation and state/task release fail on the current tree (no FIN is ever emitted) and are recorded as known findings per closing side and mode.", "7/C08", "Known findings: see /verif/known_findings.json (C08 entries)."),
  "C09": ("exploration", "Real client or server Session with blocked readers, pending opens and concurrent writers against a scripted peer; exactly one termination cause per run (EOF / reset / unexpected-EOF / write error / flush error at a seeded byte offset inside or between frames, Alert, owner close at a seeded instant, heartbeat give-up) with shutdown ok/err/hang; oracle on virtual time: closed, transport shut, readers and opens released by t0+2s, no write/open hangs, later attempts fail.", "7/C09", ""),
- "C12": ("exploration", "Model-based: real Client + SessionPool + reaper + heartbeat against the real Server over histories of requests (single / bursts, streams held 20 ms .. 4 intervals), external session deaths and reaper ticks under pool settings interval {1,5,30}s x timeout {2,3,10} intervals x min idle {0..3}; the observed sessions handed out, closed and held in the idle map are compared after every tick with an executable model of the pool as implemented (M1), and the four property clauses are judged on the observations. Clause failures that M1 predicts exactly are the recorded known findings (missing stream life-cycle); any deviation from M1 is a violation.", "7/C12", "Known findings: see /verif/known_findings.json (C12 entries)."),
- "C13": ("exploration", "Same model-based harness as C12 without session deaths: strictly sequential, bursty and mixed request histories; TLS connections counted on the simulated network, open sessions observed after every tick; clause 1 (a request starting while a healthy stream-less session exists is not re-dialled) and clause 2 (open sessions <= peak concurrency + configured minimum) judged on the observations; failures predicted exactly by the pool model M1 are the recorded known findings, deviations from M1 are violations.", "7/C13", "Known findings: see /verif/known_findings.json (C13 entries)."),
- "C14": ("exploration", "Real client Session with its heartbeat task over the whole (interval, timeout) grid {1,2,3,5,10,30,60}^2, seeded one-way delay up to 0.45 x timeout, peer that answers until it falls silent (never / from start / after k; draining or stalled), with and without stream traffic and waiters; 25+ intervals of virtual time per run; oracle A: never closed while answered in time; oracle B: closed with waiters released within timeout+interval of the last answer received.", "7/C14", ""),
+ "C12": ("exploration", "Model-based: real Client + SessionPool + reaper + heartbeat against the real Server over histories of requests (single / bursts, streams held 20 ms .. 4 intervals), external session deaths, reaper ticks and calls of the public cleanup_expired() between ticks under pool settings interval {1,5,30}s x timeout {2,3,10} intervals x min idle {0..3}; the observed sessions handed out, closed and held in the idle map are compared after every tick with an executable model of the pool as implemented (M1), and the four property clauses are judged on the observations. Clause failures that M1 predicts exactly are the recorded known findings (missing stream life-cycle); any deviation from M1 is a violation.", "7/C12", "Known findings: see /verif/known_findings.json (C12 entries)."),
+ "C13": ("exploration", "Same model-based harness as C12 (histories may contain external session deaths and manual cleanup_expired() passes): strictly sequential, bursty and mixed request histories; TLS connections counted on the simulated network, open sessions observed after every tick; clause 1 (a request starting while a healthy stream-less session exists is not re-dialled) and clause 2 (open sessions <= peak concurrency + configured minimum) judged on the observations; failures predicted exactly by the pool model M1 are the recorded known findings, deviations from M1 are violations.", "7/C13", "Known findings: see /verif/known_findings.json (C13 entries)."),
+ "C14": ("exploration", "Real client Session with its heartbeat task over the whole (interval, timeout) grid {1,2,3,5,10,30,60}^2, seeded one-way delay up to 0.45 x timeout, peer that answers until it falls silent (never / from start / after k; draining or stalled), with and without stream traffic and waiters; 1 case in 6 through the real Client against the real Server over a delayed link, where 0-2 further requests (served / refused / unresolvable / failing locally after their stream was opened) precede the observation; 25+ intervals of virtual time per run; oracle A: never closed while answered in time; oracle B: closed with waiters released within timeout+interval of the last answer received.", "7/C14", ""),
  "C11": ("exploration", "2-6 concurrent tasks re-enacting create_proxy_stream + direct/queued writes + heartbeats on one fresh or established client session with all write-path yield points eligible and seeded transport capacity; oracle on the reference-decoded recorded wire (contiguity, Settings first, SYN before PSH, per-stream order, exactly-once) and delivery through a real server session.", "7/C11", ""),
  "C01": ("exploration", "Seeded search over plans (streams, chunk sizes incl. 0 and >65535, APIs, reader buffers, padding schemes) x transport fragmentation/back-pressure/latency x scheduler perturbation; oracle = per-read prefix check against the submitted bytes plus completeness at quiescence. Real Session/Stream/StreamReader/codec/padding on both ends.", "7/C01", ""),
 }
@@ -69,8 +69,7 @@ def main():
         "not_applicable": na,
         "notes": "See DESIGN.md. Exit codes of every check: 0 held, 1 VIOLATION (replay file written under /verif/replays), 2 harness/build error. Known findings: /verif/known_findings.json.",
     }
-    if not na:
-        del man["not_applicable"]
+    # all 20 properties are claimed; the (empty) list is kept explicit
     json.dump(man, open(os.path.join(HERE, "MANIFEST.json"), "w"), indent=1)
     try:
         import jsonschema
